@@ -5,10 +5,13 @@ EXTENDS Integers, Sequences, FiniteSets, TLC, Json
 CONSTANTS GHosts, BadTargets, Depth, Bursts
 VARIABLES hist, issued
 GenInit == hist = <<>> /\ issued = {}
+\* an expiry is followed at once by requests for that host (otherwise a random walk over 8 hosts rarely returns to it)
+JustExpired == hist # <<>> /\ hist[Len(hist)].a = "expire"
 GenNext ==
-    \/ \E h \in GHosts, n \in Bursts : hist' = Append(hist, [a |-> "get", host |-> h, n |-> n]) /\ issued' = issued \cup {h}
-    \/ \E h \in issued : hist' = Append(hist, [a |-> "expire", host |-> h, n |-> 0]) /\ UNCHANGED issued
-    \/ \E t \in BadTargets : Len(hist) < 3 /\ hist' = Append(hist, [a |-> "badtarget", host |-> t, n |-> 0]) /\ UNCHANGED issued
+    \/ \E h \in GHosts, n \in Bursts : /\ JustExpired => h = hist[Len(hist)].host
+                                       /\ hist' = Append(hist, [a |-> "get", host |-> h, n |-> n]) /\ issued' = issued \cup {h}
+    \/ \E h \in issued, k \in 1..6 : ~JustExpired /\ hist' = Append(hist, [a |-> "expire", host |-> h, n |-> 0]) /\ UNCHANGED issued
+    \/ \E t \in BadTargets : ~JustExpired /\ Len(hist) < 3 /\ hist' = Append(hist, [a |-> "badtarget", host |-> t, n |-> 0]) /\ UNCHANGED issued
 GenSpec == GenInit /\ [][GenNext]_<<hist, issued>>
 PrintHist == (TLCGet("level") # Depth) \/ PrintT(<<"HIST", ToJson(hist)>>)
 =============================================================================
